@@ -15,31 +15,39 @@ NATIVE = os.path.join(VERIF, 'native')
 
 
 def units():
-    return json.load(open(os.path.join(NATIVE, 'units.json')))
+    import glob
+    us = json.load(open(os.path.join(NATIVE, 'units.json')))
+    for f in sorted(glob.glob(os.path.join(NATIVE, 'units.d', '*.json'))):
+        us += json.load(open(f))
+    return us
 
 
 def units_for(prop, tier):
     return [u for u in units() if prop in u['props'] or prop == 'ALL']
 
 
-def build(repo):
+def build(repo, bins=None):
     env = dict(os.environ)
     env['CARGO_NET_OFFLINE'] = 'true'
     env['CARGO_TARGET_DIR'] = TARGET
     manifest = os.path.join(NATIVE, 'Cargo.toml')
     if repo.rstrip('/') != '/repo':
         # scratch copy of the repository: build a scratch copy of the harness crate against it
-        scratch = os.path.join(VERIF, '.work', 'native-scratch')
+        import hashlib
+        tag = hashlib.sha1(os.path.abspath(repo).encode()).hexdigest()[:10]
+        # one scratch crate and one target directory per scratch tree: concurrent ./check runs on different trees do not collide
+        scratch = os.path.join(VERIF, '.work', 'native-scratch-' + tag)
         shutil.rmtree(scratch, ignore_errors=True)
         shutil.copytree(NATIVE, scratch)
         t = open(os.path.join(scratch, 'Cargo.toml')).read().replace('path = "/repo"', 'path = "%s"' % repo)
         open(os.path.join(scratch, 'Cargo.toml'), 'w').write(t)
         manifest = os.path.join(scratch, 'Cargo.toml')
-        env['CARGO_TARGET_DIR'] = TARGET + '-scratch'
+        env['CARGO_TARGET_DIR'] = TARGET + '-scratch-' + tag
     lock = os.path.join(os.path.dirname(manifest), 'Cargo.lock')
     if not os.path.exists(lock):
         shutil.copy(os.path.join(repo, 'Cargo.lock'), lock)
-    p = subprocess.run(['cargo', 'build', '--offline', '--bins', '--manifest-path', manifest], env=env,
+    which = ['--bins'] if not bins else [x for b in bins for x in ('--bin', b)]   # only the harnesses this run needs
+    p = subprocess.run(['cargo', 'build', '--offline'] + which + ['--manifest-path', manifest], env=env,
                        stdout=subprocess.PIPE, stderr=subprocess.STDOUT, text=True)
     return p.returncode, p.stdout, os.path.join(env['CARGO_TARGET_DIR'], 'debug')
 
@@ -49,7 +57,7 @@ def run(us, repo, tier):
     if not us:
         return out
     t0 = time.time()
-    rc, log, bindir = build(repo)
+    rc, log, bindir = build(repo, sorted(set(u['bin'] for u in us)))
     bt = time.time() - t0
     for u in us:
         r = {'id': u['id'], 'title': u['title'], 'functions': u.get('functions', []), 'bound': None, 'complete': False,
@@ -86,4 +94,10 @@ def run(us, repo, tier):
                                   'witness': {'kind': 'native-replay', 'input_hex': hx, 'input_text': text,
                                               'replay_cmd': '%s %d %s' % (os.path.join(bindir, u['bin']), n, hx)}})
         out.append(r)
+    if repo.rstrip('/') != '/repo' and not os.environ.get('VERIF_KEEP_NATIVE_SCRATCH'):
+        # scratch tree: its private build directory (GBs) is removed again; set VERIF_KEEP_NATIVE_SCRATCH=1 to keep it
+        import hashlib
+        tag = hashlib.sha1(os.path.abspath(repo).encode()).hexdigest()[:10]
+        shutil.rmtree(TARGET + '-scratch-' + tag, ignore_errors=True)
+        shutil.rmtree(os.path.join(VERIF, '.work', 'native-scratch-' + tag), ignore_errors=True)
     return out
